@@ -169,7 +169,7 @@ Lemma fresh_current pr w vis l v :
   lookup l vis = Some v -> current w l.
 Proof.
   intros Hpr G Hfresh Hallok Hl. unfold current. rewrite Hpr.
-  destruct (Hfresh l v Hl (Hallok l v Hl)) as (d & Hd & (Hst & Hrr & (vs & Hvs & Hprev) & Hutd)).
+  destruct (Hfresh l v Hl (Hallok l v Hl)) as (d & Hd & (Hst & Hrr & (vs & Hvs & Hprev) & Hutd & _)).
   rewrite Hd. destruct d as [deps srcs gens env k alw|p]; [|exact I].
   unfold utd_core in Hutd. destruct (r_data (rec_of w l)) as [|e|] eqn:Hdata; try discriminate.
   apply andb_prop in Hutd. destruct Hutd as [He Hg]. apply N.eqb_eq in He. subst e.
@@ -189,7 +189,7 @@ Proof.
   destruct Hvd as (vd & Hin).
   destruct (Hprev dep vd Hin) as (prev & Hlk & Heq). apply stamp_eqb_eq in Heq. subst prev.
   destruct (dep_visits_in _ _ _ _ _ Hvs Hin) as [Hvis _].
-  destruct (Hfresh dep vd Hvis (Hallok dep vd Hvis)) as (dd & Hdd & (Hstd & _ & _ & Hutdd)).
+  destruct (Hfresh dep vd Hvis (Hallok dep vd Hvis)) as (dd & Hdd & (Hstd & _ & _ & Hutdd & _)).
   rewrite Hdd. unfold rstamp in Hstd. rewrite Hstd in Hlk.
   destruct dd as [deps' srcs' gens' env' k' alw'|p'].
   - unfold utd_core in Hutdd. destruct (r_data (rec_of w dep)) as [|e'|] eqn:Hdata'; try discriminate.
